@@ -52,7 +52,7 @@ def handleL1 (j : Json) : Except String Json := do
           | .ok _, .ok _ => #[Json.str "C01", Json.str "C02"]
           | .error _, .err .. => #[Json.str "C19"]
           | _, _ => #[Json.str "C01", Json.str "C02", Json.str "C19"])),
-       ("c01", Json.bool (holdsC01 q obs)), ("c02", Json.bool (holdsC02 E obs)),
+       ("c01", Json.bool (holdsC01 q obs && exprSpansExact E obs)), ("c02", Json.bool (holdsC02 E obs)),
        ("c19", Json.bool (holdsC19 q obs shifts))]))
 
 def handle (line : String) : Json :=
